@@ -4,6 +4,7 @@ C10 — property theorems: bounds lemmas on the index-arithmetic models of `Mode
 -/
 import Mahotas.Proofs.C10MiscLbp
 import Mahotas.Proofs.C10MiscDist
+import Mahotas.Proofs.C10MiscTerm
 import Mahotas.Proofs.C10Odometer
 import Mahotas.Proofs.C10Interp
 import Mahotas.Proofs.C10IWavelet
@@ -13,6 +14,12 @@ import Mahotas.Proofs.C10Cw
 import Mahotas.Proofs.C10Line
 import Mahotas.Proofs.C10Surf
 import Mahotas.Proofs.Modes
+import Mahotas.Proofs.C10Labeled
+import Mahotas.Proofs.C10Slic
+import Mahotas.Proofs.C10Flood
+import Mahotas.Proofs.C10Feat
+import Mahotas.Proofs.C10Conv
+import Mahotas.Proofs.C10Alloc
 open Mahotas Mahotas.C10
 
 /-! ## general index arithmetic -/
@@ -911,3 +918,721 @@ theorem C10_mode_codes_agree (m : Mahotas.Mode) :
     (Mahotas.Generated.pyModes.lookup m.name = some m.code ∧ Mahotas.Generated.cppModes.lookup m.name = some m.code) ∧
     Mahotas.Generated.pyModes.length = 6 ∧ Mahotas.Generated.cppModes.length = 6 :=
   ⟨Mahotas.mode_codes_agree m, Mahotas.mode_tables_complete.1, Mahotas.mode_tables_complete.2.1⟩
+
+
+namespace Mahotas
+/-- the seeds along one axis: at least one, all inside (restated from `C11_slic_seeds_nonempty_in_range`, which lives downstream) -/
+theorem slic_seeds_len (S N : Nat) (hN : S / 2 < N) :
+    (1 ≤ (Mahotas.C11.seeds S N).length) ∧ ∀ y ∈ Mahotas.C11.seeds S N, y < N := by
+  constructor
+  · unfold Mahotas.C11.seeds
+    obtain ⟨n, rfl⟩ : ∃ n, N = n + 1 := ⟨N - 1, by omega⟩
+    simp [Mahotas.C11.seedLoop, hN]
+  · have : ∀ fuel y0, ∀ y ∈ Mahotas.C11.seedLoop S N fuel y0, y < N := by
+      intro fuel
+      induction fuel with
+      | zero => intro y0 y hy; simp [Mahotas.C11.seedLoop] at hy
+      | succ k ih =>
+        intro y0 y hy
+        simp only [Mahotas.C11.seedLoop] at hy
+        split at hy
+        · rcases List.mem_cons.mp hy with rfl | h
+          · assumption
+          · exact ih _ _ h
+        · simp at hy
+    exact this _ _
+end Mahotas
+
+/-! ## Round 4 — Labeled: `_labeled.cpp` (label union-find, borders, slic, is_same_labeling), `_center_of_mass` label path, `_bbox` labeled n-D path -/
+section Round4Labeled
+open Mahotas.C10Labeled
+-- (theorems of this package go between this line and the `end`)
+
+/-- **C10, `_labeled.cpp: slic` — one assignment window.** For every image size, every `S ≥ 1` and EVERY (truncated) centroid position
+inside the image — centroids are means of pixel coordinates, hence inside — the window
+`[max(0, cy-2S), min(Ny, cy+2S)) × [max(0, cx-2S), min(Nx, cx+2S))` is non-empty in both directions (so the loops
+`for (y = start_y; y != end_y; ++y)` end) and every `pos = y*Nx + x` is a cell of `distance` / `nlabels` (`N = Ny*Nx` cells; the
+pixel reads are `array.at(y, x, c)`). For a centroid outside the image the `!=` loops would not end (second example). -/
+theorem C10_slic_window_in_bounds (ny nx S cy cx : Int) (hS : 1 ≤ S) (hy0 : 0 ≤ cy) (hy : cy < ny) (hx0 : 0 ≤ cx) (hx : cx < nx) :
+    ∃ l, Mahotas.C10Slic.windowPositions ny nx S cy cx = some l ∧ Mahotas.C10Slic.inN (ny * nx) l = true ∧
+      Mahotas.C10Slic.winLo cy S < Mahotas.C10Slic.winHi ny cy S ∧ Mahotas.C10Slic.winLo cx S < Mahotas.C10Slic.winHi nx cx S := by
+  obtain ⟨l, h1, h2, h3, h4⟩ := Mahotas.C10Slic.window_ok ny nx S cy cx hS hy0 hy hx0 hx
+  exact ⟨l, h1, (Mahotas.C10Slic.inN_iff _ _).mpr h2, h3, h4⟩
+
+example : Mahotas.C10Slic.windowPositions 5 4 1 0 3 = some [1, 2, 3, 5, 6, 7] ∧
+    Mahotas.C10Slic.windowPositions 5 4 1 9 3 = none := by decide
+
+/-- **C10, `slic` — the first iteration assigns every pixel (why no label `-1` is ever used as an index).** For `S ≥ 1` and an image
+with a seed on both axes (`S/2 < Ny`, `S/2 < Nx`: the guards of `segmentation.slic`, `C11_slic_guards_imply_pre`), every pixel lies
+inside the assignment window of at least one seed centroid — so in the first iteration every `nlabels[pos]` is overwritten with a
+centroid index `< K` (a finite `D2` beats the initial `distance = 10e20`); `nlabels` is never reset afterwards, so `labels[p]`
+stays in `[0, K)` and `centroid_counts[labels[pos]]`, `centroids[labels[pos]]`, `centroids[alabels.at(y,x)]` are valid. The seeds
+themselves are inside the image and there is at least one (`C11_slic_seeds_nonempty_in_range`). -/
+theorem C10_slic_first_iteration_covers (S ny nx : Nat) (hS : 1 ≤ S) (hy : S / 2 < ny) (hx : S / 2 < nx) :
+    Mahotas.C10Slic.covered S ny nx = true ∧ 1 ≤ (Mahotas.C10Slic.seedCentroids S ny nx).length ∧
+      ∀ c ∈ Mahotas.C10Slic.seedCentroids S ny nx, c.1 < ny ∧ c.2 < nx := by
+  obtain ⟨ly, hly⟩ := Mahotas.slic_seeds_len S ny hy
+  obtain ⟨lx, hlx⟩ := Mahotas.slic_seeds_len S nx hx
+  refine ⟨Mahotas.C10Slic.covered_ok S ny nx hS hy hx, ?_, ?_⟩
+  · simp only [Mahotas.C10Slic.seedCentroids, List.length_flatMap, List.length_map]
+    obtain ⟨a, as, e⟩ := List.exists_cons_of_length_pos (show 0 < (Mahotas.C11.seeds S ny).length by omega)
+    rw [e]; simp; omega
+  · intro c hc
+    simp only [Mahotas.C10Slic.seedCentroids, List.mem_flatMap, List.mem_map] at hc
+    obtain ⟨y, hy', x, hx', rfl⟩ := hc
+    exact ⟨hly y hy', hlx x hx'⟩
+
+/-- the image smaller than `S/2` along an axis (the crash repaired by dbab495; now rejected by the wrapper): no centroid, nothing is
+covered; a 14 × 20 image with `S = 16`: two centroids cover everything -/
+example : Mahotas.C10Slic.covered 16 14 7 = false ∧ Mahotas.C10Slic.seedCentroids 16 14 7 = [] ∧
+    Mahotas.C10Slic.covered 16 14 20 = true ∧ Mahotas.C10Slic.seedCentroids 16 14 20 = [(8, 8)] := by decide +kernel
+
+/-- **C10, `_labeled.cpp: find` on ANY array.** If the parent pointers from cell `i` reach a root after `d` steps inside the array
+(`C03.RootN par i r d`: the acyclicity/closedness fact) and `d < fuel`, the recursion of `find(data, i)` ends and every
+`data[·]` it reads or writes (path compression) is a cell of the array. -/
+theorem C10_find_in_bounds (fuel : Nat) (par : Array Int) (i r d : Nat) (h : Mahotas.C03.RootN par i r d) (hd : d < fuel) :
+    (findAcc fuel par (i : Int)).2 = true ∧ inRange par.size (findAcc fuel par (i : Int)).1 = true := by
+  obtain ⟨h1, h2⟩ := findAcc_ok fuel par i r d h hd
+  exact ⟨h1, (inRange_iff _ _).mpr h2⟩
+
+/-- non-vacuity: a chain 3 → 0 → 1 → 2 (root): four reads, three writes; a two-cycle never reaches a root (the recursion would
+not end); a parent `-1` (a background mark used as an index) is dereferenced outside the array -/
+example : findAcc 5 #[1, 2, 2, 0] 3 = ([3, 0, 1, 2, 1, 0, 3], true) ∧ (findAcc 9 #[1, 0] 0).2 = false ∧
+    inRange 2 (findAcc 9 #[1, -1] 0).1 = false := by decide
+
+/-- **C10, `_labeled.cpp: label` — the union–find array accesses (an invariant proof).** For EVERY image (any rank, any content,
+`data.length` cells), every structuring element (any list of neighbour offsets `offs`, centre included or not) and both border
+treatments of the filter iterator: during the scan loop (`join(data, i, arr_val)` for every retrieved neighbour value
+`arr_val != -1`) and the compression loop (`compress(data, i)`), EVERY index dereferenced by `find` / `join` — each
+`data[i]`, each `data[data[i]]` up the chain, each path-compression store `data[i] = j`, each root update `data[find i] = find j`
+— is inside the `N` cells of the array, and no `find` recursion is deeper than `N + 1` calls (so the C++ recursion returns).
+The reason is the invariant C03 proves (`C03.Inv`): at every moment each foreground cell holds the index of a foreground cell
+from which the parent pointers reach a root without leaving the array (the neighbour VALUE `arr_val` handed to `join` is such a
+parent index, never a raw label), each background cell holds `-1` and is never used as an index. The array the trace carries is
+exactly `C03.parents` (the state C03's partition theorems are about), and at the end every cell holds `-1` or an index `< N`. -/
+theorem C10_label_union_find_in_bounds (m : Mahotas.Mode) (shape : List Nat) (data : List Int) (offs : List (List Int)) :
+    inRange data.length (labelUF m shape data offs (data.length + 1)).2.1 = true ∧
+    (labelUF m shape data offs (data.length + 1)).2.2 = true ∧
+    (labelUF m shape data offs (data.length + 1)).1 = Mahotas.C03.parents m shape data offs ∧
+    ∀ i : Nat, (Mahotas.C03.parents m shape data offs).getD i (-1) = -1 ∨
+      (0 ≤ (Mahotas.C03.parents m shape data offs).getD i (-1) ∧
+        (Mahotas.C03.parents m shape data offs).getD i (-1) < (data.length : Int)) := by
+  obtain ⟨⟨E, hE⟩, hr, ht⟩ := labelUF_good m shape data offs
+  have hp := labelUF_parents m shape data offs
+  refine ⟨(inRange_iff _ _).mpr hr, ht, hp, fun i => ?_⟩
+  rw [hp] at hE
+  exact inv_entries hE i
+
+/-- non-vacuity: a 3×3 image with three components, cross neighbourhood (constant border): 38 dereferences, all inside the
+9 cells; the parents afterwards -/
+example : (labelUF Mahotas.Mode.constant [3, 3] [1, 1, 0, 0, 1, 0, 1, 0, 1] [[-1, 0], [0, -1], [0, 0], [0, 1], [1, 0]] 10).2.1.length = 38 ∧
+    (labelUF Mahotas.Mode.constant [3, 3] [1, 1, 0, 0, 1, 0, 1, 0, 1] [[-1, 0], [0, -1], [0, 0], [0, 1], [1, 0]] 10).1 =
+      #[4, 4, -1, -1, 4, -1, 6, -1, 8] := by decide +kernel
+
+end Round4Labeled
+-- ---------------------------------------------------------------------------------------------------------
+
+
+/-! ## Round 4 — Flood: `_morph.cpp` flood/queue kernels (close_holes, regmin_max, locmin_max, distance_multi position_queue, subm, disk_2d, majority_filter) and the `_thin` full pass -/
+section Round4Flood
+open Mahotas.C10Flood
+-- (theorems of this package go between this line and the `end`)
+
+/-- **C10, `numpy::position_queue` (`numpypp/array.hpp`; used by `distance_multi`).** For every rank `size_ ≥ 1`, every compaction
+constant `limit` (512 in the source) and EVERY sequence of `push` / `if (!empty()) top_pop()` (the protocol of the callers'
+`while (!queue.empty())` loops): each `store_[next_*size_ + d]` read by `top()` is inside `store_`, and whenever `next_` reaches
+the limit the erased range `[begin, begin + next_*size_)` lies inside `store_`; the vector always holds a whole number of
+positions and `next_` never passes it (so the unsigned `size() = store_.size()/size_ - next_` does not wrap). -/
+theorem C10_position_queue_in_bounds (limit sz : Nat) (hsz : 1 ≤ sz) (ops : List Bool) :
+    vAllOk (qRun limit sz ops ⟨0, 0⟩).1 = true ∧
+      ∃ m : Nat, (qRun limit sz ops ⟨0, 0⟩).2.1.len = m * sz ∧ (qRun limit sz ops ⟨0, 0⟩).2.1.next ≤ m :=
+  qRun_ok limit sz hsz ops ⟨0, 0⟩ ⟨0, by simp, Nat.le_refl _⟩
+
+/-- non-vacuity: rank 2, limit 3, four pushes and five guarded pops (the compaction happens at the third pop; the fifth pop finds
+the queue empty): 4 × 2 reads + 1 erase; popping WITHOUT the `empty()` test reads past the vector -/
+example : (qRun 3 2 [true, true, true, true, false, false, false, false, false] ⟨0, 0⟩) =
+    ([⟨0, 8⟩, ⟨1, 8⟩, ⟨2, 8⟩, ⟨3, 8⟩, ⟨4, 8⟩, ⟨5, 8⟩, ⟨5, 8⟩, ⟨0, 2⟩, ⟨1, 2⟩], ⟨2, 1⟩, 4) ∧
+    vAllOk (qTopPop 512 2 ⟨2, 1⟩).1 = false := by decide
+
+/-- **C10, `numpy::position_stack` (`close_holes`, `remove_fake_regmin_max`).** For every rank `size_ ≥ 1` and every sequence of
+`push` / `if (!empty()) top_pop()`: each `store_[store_.size() - size_ + d]` is inside `store_`; the vector always holds a whole
+number of positions (so `end() - size_` is a valid iterator whenever the stack is not empty). -/
+theorem C10_position_stack_in_bounds (sz : Nat) (hsz : 1 ≤ sz) (ops : List Bool) :
+    vAllOk (sRun sz ops 0).1 = true ∧ ∃ m : Nat, (sRun sz ops 0).2.1 = m * sz :=
+  sRun_ok sz hsz ops 0 ⟨0, by simp⟩
+
+example : sRun 2 [true, true, false, false, false, true, false] 0 =
+    ([⟨2, 4⟩, ⟨3, 4⟩, ⟨0, 2⟩, ⟨1, 2⟩, ⟨0, 2⟩, ⟨1, 2⟩], 0, 3) := by decide
+
+/-- **C10, `close_holes`: the border seeding loops.** For EVERY 1-D and 2-D shape (zero-length axes included: the axis is skipped,
+resp. `N/dim(d) = 0` iterations) every `ref.at(pos)` / `f.at(pos)` of the seeding — `pos[d] = 0`, `pos[d] = dim(d) - 1`, the other
+coordinate advanced by the odometer `if (pos[j] < dim(j)) { ++pos[j]; break; }` — is inside the array. The odometer's test is `<`
+where `< dim(j) - 1` would be needed to carry: for rank ≥ 3 it steps one past an axis (third conjunct: a `1 × 3 × 3` array is left);
+the public `mahotas.close_holes` admits 2-D images only (`_check_2`, `C11_close_holes_safe`). -/
+theorem C10_close_holes_seeding_in_bounds :
+    (∀ n : Nat, pAllOk (chSeedAccesses [n]) = true) ∧ (∀ n0 n1 : Nat, pAllOk (chSeedAccesses [n0, n1]) = true) ∧
+      pAllOk (chSeedAccesses [1, 3, 3]) = false :=
+  ⟨chSeed_rank1, chSeed_rank2, by decide⟩
+
+example : (chSeedAccesses [2, 3]).map (·.pos) =
+    [[0, 0], [1, 0], [0, 1], [1, 1], [0, 2], [1, 2], [0, 0], [0, 2], [1, 0], [1, 2]] ∧ chSeedAccesses [0, 4] = [] := by decide
+
+
+/-- **C10, `distance_multi`: the queue loop TERMINATES** (the item left open in round 3). For every shape (any rank), every image,
+every list of deltas and every initial content of `res` (one cell per pixel: `same_shape(array, res)` is a native guard): a queue
+entry is pushed only together with a store that strictly lowers a cell of `res` to a squared distance (a non-negative integer,
+`*rpos > next_dist` ⇒ `*rpos = next_dist`), so `Σ max(res[p], 0)` drops by at least one per push and `while (!dist_q.empty())` ends
+within `(pushes of the first phase) + Σ max(res[p], 0)` pops — with every budget at least that large the model's queue runs empty.
+Together with `C10_distance_multi_in_bounds` (every dereference inside, for every budget) and `C10_position_queue_in_bounds`
+(the queue's own index arithmetic) the kernel is covered; `neighbours_delta` still needs a non-empty neighbourhood
+(`C10_distance_multi_needs_neighbour`). -/
+theorem C10_distance_multi_terminates (shape : List Nat) (img : List Bool) (res : List Int) (deltas : List (List Int))
+    (hlen : res.length = shapeSize shape) (fuel : Nat)
+    (hf : (Mahotas.C10Misc.dmFirst true shape img deltas (List.range (shapeSize shape)) res).2.2.length +
+      Mahotas.C10Misc.resMass (Mahotas.C10Misc.dmFirst true shape img deltas (List.range (shapeSize shape)) res).2.1 ≤ fuel) :
+    (Mahotas.C10Misc.dmRun true shape img res deltas fuel).2.2 = true :=
+  Mahotas.C10Misc.dmRun_terminates shape img res deltas hlen fuel hf
+
+/-- non-vacuity: a 1×4 line with one background pixel, `res` = 100 everywhere, deltas ±1: budget 3 + 6 = 9 suffices (it ends after
+3 pops); with budget 1 the queue is not yet empty -/
+example : (Mahotas.C10Misc.dmRun true [1, 4] [false, true, true, true] [100, 100, 100, 100] [[0, -1], [0, 2]] 20).2 = ([0, 1, 4, 9], true) ∧
+    (Mahotas.C10Misc.dmRun true [1, 4] [false, true, true, true] [100, 100, 100, 100] [[0, -1], [0, 2]] 1).2.2 = false := by
+  decide +kernel
+
+/-- **C10, the stack flood of `close_holes` and `remove_fake_regmin_max`: accesses AND termination.**
+`while (!stack.empty()) { p = stack.top_pop(); for every neighbour delta: npos = p + delta; if (validposition(npos) && available(npos))
+{ take(npos); stack.push(npos); } }` — the step is `C14.floodVisit`. For every shape (any rank), every neighbourhood, every
+availability map and every initial stack: every position dereferenced is inside the array (all dereferences are behind
+`validposition`), and — because a position is pushed exactly when its flag is cleared — the loop DRAINS the stack after at most
+`stack length + number of available pixels` pops, and the stack never holds more positions than that. -/
+theorem C10_stack_flood_in_bounds (shape : List Nat) (nb : List (List Int)) (fuel : Nat) (av : Array Bool)
+    (st : List (List Int)) (hf : st.length + cntTrue av ≤ fuel) :
+    pAllOk (floodRun shape nb fuel av st).1 = true ∧ (floodRun shape nb fuel av st).2.1 = true ∧
+      (floodRun shape nb fuel av st).2.2.1 ≤ st.length + cntTrue av ∧
+      (floodRun shape nb fuel av st).2.2.2.1 ≤ st.length + cntTrue av :=
+  floodRun_ok shape nb fuel av st hf
+
+/-- non-vacuity: a 3×3 map with two unavailable pixels, cross neighbourhood, seed (0,0): 6 pixels taken in 7 pops, the stack is
+drained; with fuel 3 it is not -/
+example :
+    let av : Array Bool := #[false, true, true, true, false, true, true, true, false]
+    let nb : List (List Int) := [[-1, 0], [0, -1], [0, 1], [1, 0]]
+    ((floodRun [3, 3] nb 20 av [[0, 0]]).2.1, (floodRun [3, 3] nb 20 av [[0, 0]]).2.2.1,
+      cntTrue (floodRun [3, 3] nb 20 av [[0, 0]]).2.2.2.2, (floodRun [3, 3] nb 3 av [[0, 0]]).2.1) = (true, 7, 0, false) := by
+  decide
+
+
+/-- **C10, `remove_fake_regmin_max` (behind `regmax` / `regmin`): the whole scan with its floods.** For every shape (any rank), every
+neighbourhood, every initial marking (what `locmin_max` left in the zero-filled result) and EVERY outcome of the value tests on
+the neighbours (`witness`): over all positions of the image in scan order — the iterator's positions, inside by construction
+(`C10_unravel_inside`) — every `f.at(pos)`, every neighbour probe `regmin.at(npos)` / `f.at(npos)` (behind `validposition`), and
+every dereference of every flood started at a marked pixel with a witness is inside the array, and EVERY flood drains its stack
+(within `1 + #marked` pops: `C10_stack_flood_in_bounds`), so the function returns. -/
+theorem C10_regmin_max_in_bounds (shape : List Nat) (nb : List (List Int)) (witness : List Int → Array Bool → Bool)
+    (av : Array Bool) :
+    pAllOk (regScan shape nb witness (allPos shape) av).1 = true ∧ (regScan shape nb witness (allPos shape) av).2.1 = true := by
+  apply regScan_ok
+  intro p hp
+  simp only [allPos, List.mem_map, List.mem_range] at hp
+  obtain ⟨i, hi, rfl⟩ := hp
+  exact C10_unravel_inside shape i hi
+
+/-- non-vacuity: a 2×3 plateau, all marked, the first pixel has a witness: one flood clears everything (6 probes + flood accesses) -/
+example : (regScan [2, 3] [[-1, 0], [0, -1], [0, 1], [1, 0]] (fun p _ => p == [0, 0]) (allPos [2, 3])
+    #[true, true, true, true, true, true]).2 = (true, #[false, false, false, false, false, false]) := by decide +kernel
+
+/-- **C10, `close_holes` as `C14.closeHoles` runs it.** For every well-formed image (`data.size = ∏ shape`, any rank) and every
+neighbourhood: the fuel `C14.closeHoles` passes to the flood (`size + #seeds + 1`) drains the stack — so the C14 correctness
+theorems speak about a flood that has really ended — and every position the flood dereferences is inside the array. -/
+theorem C10_close_holes_flood_terminates (ref : Img Int) (nb : List (List Int)) (hwf : ref.data.size = ref.size) :
+    pAllOk (floodRun ref.shape nb (ref.size + (C14.chSeeds ref).length + 1) (C14.chAvail1 ref) (C14.chSeeds ref).reverse).1 = true ∧
+      (floodRun ref.shape nb (ref.size + (C14.chSeeds ref).length + 1) (C14.chAvail1 ref) (C14.chSeeds ref).reverse).2.1 = true := by
+  have hsz : ∀ (l : List (List Int)) (a : Array Bool),
+      (l.foldl (fun a p => a.setIfInBounds (ravelI ref.shape p) false) a).size = a.size := by
+    intro l
+    induction l with
+    | nil => intro a; rfl
+    | cons p ps ih => intro a; simp only [List.foldl_cons]; rw [ih]; simp
+  have h1 : (C14.chAvail1 ref).size = ref.size := by
+    unfold C14.chAvail1
+    rw [hsz]
+    simp [C14.chAvail0, hwf]
+  have h2 : cntTrue (C14.chAvail1 ref) ≤ ref.size := by
+    rw [← h1]
+    simp only [cntTrue]
+    have := List.countP_le_length (p := id) (l := (C14.chAvail1 ref).toList)
+    simpa using this
+  have := floodRun_ok ref.shape nb (ref.size + (C14.chSeeds ref).length + 1) (C14.chAvail1 ref) (C14.chSeeds ref).reverse
+    (by simp only [List.length_reverse]; omega)
+  exact ⟨this.1, this.2.1⟩
+
+end Round4Flood
+-- ---------------------------------------------------------------------------------------------------------
+
+
+/-! ## Round 4 — Feat: feature kernels (`_zernike` znl, SURF `compute_dominant_angle`, `_texture`, `_convex` entry point, `_histogram` otsu, `_interpolate` remaining pieces) -/
+section Round4Feat
+open Mahotas.C10Feat
+-- (theorems of this package go between this line and the `end`)
+
+/-- **C10, `_histogram.cpp: otsu(hist, n)`.** For EVERY `n` (0, 1 and negative included: no access, result 0) and every outcome of
+the floating-point tests (`Hsum == 0`, `nB[T] == 0` → `continue`, `nO[T] == 0` → `break`, `sigma_between > best`): every `hist[i]`,
+`nB[i]`, `nB[i-1]`, `nB[n-1]`, `nO[i]`, `nO[T-1]` is inside its `n` cells (`nB`, `nO` are `resize(n)`), and the threshold returned
+is `0` for `n ≤ 1` and lies in `[0, n)` otherwise (a valid bin of the histogram). -/
+theorem C10_otsu_in_bounds (n : Int) (hz : Bool) (nbz noz better : Nat → Bool) :
+    allOk (otsuRun n hz nbz noz better).1 = true ∧
+      (n ≤ 1 → (otsuRun n hz nbz noz better).2 = 0) ∧ (2 ≤ n → ((otsuRun n hz nbz noz better).2 : Int) < n) :=
+  otsuRun_ok n hz nbz noz better
+
+example : ((otsuRun 4 false (fun _ => false) (fun t => t == 3) (fun t => t == 2)).1.length,
+           (otsuRun 4 false (fun _ => false) (fun t => t == 3) (fun t => t == 2)).2) = (53, 2) := by decide
+/-- reading `nB[T-1]` for `T = 0` (a loop started at 0 instead of 1) would leave the vector -/
+example : (FAcc.mk (0 - 1) 4).ok = false := by decide
+
+/-- **C10, `_zernike.cpp: fact(k)`.** For every `k ≥ 0` the recursion `double(k) * fact(k-1)` ends (`max(0, k-12)` calls deep) at ONE
+access `_factorialtable[k']` inside the table as extracted from the source (`Generated.factorialTable`, 13 entries). For `k < 0`
+the recursion never reaches the table (`unsigned(k) ≥ 13`): no amount of fuel suffices — in C a stack overflow, reachable only
+by calling `_zernike.znl` directly with `l > n` or `n < 0` (see `C11_znl_safe`). -/
+theorem C10_znl_fact_in_bounds (k : Int) :
+    (0 ≤ k → ∀ fuel : Nat, k < fuel → ∃ r, factRun fuel k = some r ∧ r.1.ok = true ∧ r.1.size = 13 ∧
+        (r.2 : Int) = max 0 (k - 12)) ∧
+    (k < 0 → ∀ fuel : Nat, factRun fuel k = none) := by
+  refine ⟨fun h0 fuel hf => ?_, fun hk fuel => factRun_neg fuel k hk⟩
+  obtain ⟨r, hr, hok, hd⟩ := factRun_nonneg fuel k h0 hf
+  have hlen : factTableLen = 13 := by decide
+  have hsz : ∀ (f : Nat) (k : Int) (r : FAcc × Nat), factRun f k = some r → r.1.size = factTableLen := by
+    intro f
+    induction f with
+    | zero => intro k r h; simp [factRun] at h
+    | succ f ih =>
+      intro k r h
+      simp only [factRun] at h
+      split at h
+      · simp only [Option.some.injEq] at h; subst h; rfl
+      · simp only [Option.map_eq_some_iff] at h
+        obtain ⟨q, hq, rfl⟩ := h
+        exact ih _ q hq
+  refine ⟨r, hr, ?_, by rw [hsz _ _ _ hr, hlen], by rw [hd, hlen]; rfl⟩
+  simp only [FAcc.ok, Bool.and_eq_true, decide_eq_true_eq]
+  exact hok
+
+example : factRun 20 15 = some (⟨12, 13⟩, 3) ∧ factRun 20 0 = some (⟨0, 13⟩, 0) ∧ factRun 20 (-1) = none := by decide
+
+/-- **C10, `_zernike.cpp: py_znl`.** For `0 ≤ l ≤ n` (what `zernike_moments` passes: `C11_zernike_loop_pre`), any parity of `n - l`,
+`Nelems = SIZE(Da)` elements and arrays `Aa`, `Pa` with at least as many elements (the wrapper passes three arrays of one shape; the
+entry point does not compare them): every `fact` call of the coefficient loop `m = 0 … (n-l)/2` comes back and reads inside the
+factorial table, every `g_m[m]` is inside the `(n-l)/2 + 1` cells of the scratch array (filling loop and element loop), every
+`D[i]`, `A[i]`, `P[i]` is inside its array. -/
+theorem C10_znl_in_bounds (fuel : Nat) (n l : Int) (nd na np : Nat) (hl0 : 0 ≤ l) (hln : l ≤ n) (hn : n < fuel)
+    (ha : nd ≤ na) (hp : nd ≤ np) :
+    allOk (znlRun fuel n l nd na np).1 = true ∧ (znlRun fuel n l nd na np).2 = true :=
+  znlRun_ok fuel n l nd na np hl0 hln hn ha hp
+
+example : (znlRun 100 8 2 3 3 3).2 = true ∧ allOk (znlRun 100 8 2 3 3 3).1 = true ∧ (znlRun 100 8 2 3 3 3).1.length = 41 := by decide
+/-- `n < 0` (direct call only): `fact(-1)` does not come back; a shorter `Pa`: `P[i]` leaves the array -/
+example : (znlRun 20 (-1) 0 1 1 1).2 = false ∧ allOk (znlRun 20 4 2 3 3 2).1 = false := by decide
+
+/-- **C10, the paired scans `_labeled.cpp: is_same_labeling` and `_morph.cpp: subm`.** `for (p = 0; p < N; ++p) … a[p] … b[p] …` with
+`N` = the size of the FIRST array: the complete scan stays inside both buffers IF AND ONLY IF the second array has at least `N`
+elements — `subm` checks `same_shape(a, b)` itself; `is_same_labeling` has NO native size test and relies on the wrapper's
+`labeled0.shape != labeled1.shape → return False`. With enough elements every prefix of the scan (the early `return false` of
+`is_same_labeling`) is inside as well. -/
+theorem C10_pair_scan_in_bounds (na nb : Nat) :
+    (allOk (pairScan na nb none) = true ↔ na ≤ nb) ∧
+    (na ≤ nb → ∀ stop : Option Nat, allOk (pairScan na nb stop) = true) :=
+  ⟨pairScan_ok_iff na nb, fun h stop => pairScan_ok na nb stop h⟩
+
+example : allOk (pairScan 4 4 none) = true ∧ allOk (pairScan 4 3 none) = false ∧ (pairScan 4 3 (some 1)).length = 4 := by decide
+
+/-- **C10, `_morph.cpp: py_disk_2d`.** For every `N0 × N1` C-contiguous bool array (zero-length axes included) and EVERY `radius`
+(also values whose square wraps in `int`: the comparison then merely selects other cells): each store `*iter = true` is at
+offset `x0*N1 + x1` inside the `N0*N1` cells. -/
+theorem C10_disk_2d_in_bounds (n0 n1 : Nat) (radius : Int) : allOk (diskStores n0 n1 radius) = true :=
+  diskStores_ok n0 n1 radius
+
+example : (diskStores 5 5 2).map (·.i) = [6, 7, 8, 11, 12, 13, 16, 17, 18] ∧ diskStores 0 7 3 = [] := by decide
+
+
+/-- **C10, `_interpolate.cpp`: the small tables of the spline code** (the pieces left open after round 2). `init_poles`: for the orders
+2…5 every `pole[pi]` (`pi < npoles ≤ 2`, the stores and both loops over the poles) is inside `FT pole[2]`; every other order throws
+before any access. `spline_coefficients`: for EVERY `order` the stores `result[hh]`, `hh ≤ order`, are inside the `order + 1` cells the
+caller has `resize`d (`order < 0`: no store). -/
+theorem C10_interpolate_small_tables_in_bounds (order : Int) :
+    (∀ l, polesAccesses order = some l → allOk l = true) ∧ (polesAccesses order = none ↔ order < 2 ∨ 5 < order) ∧
+      allOk (splineCoeffStores order) = true := by
+  refine ⟨polesAccesses_ok order, ?_, splineCoeffStores_ok order⟩
+  unfold polesAccesses
+  split_ifs with h1 h2 <;> simp <;> omega
+
+example : polesAccesses 4 = some [⟨0, 2⟩, ⟨1, 2⟩, ⟨0, 2⟩, ⟨1, 2⟩] ∧ polesAccesses 6 = none ∧
+    (splineCoeffStores 3).map (·.i) = [0, 1, 2, 3] ∧ (FAcc.mk 2 2).ok = false := by decide
+
+/-- **C10 (B9), SURF `compute_dominant_angle`: the window over the sorted samples** (the item left open in round 3). For every
+number of samples `Nsamples ≥ 1` and EVERY outcome of `between_angles` (any angles, NaN included): `samples[0]`, every
+`samples[j]` of the first loop (`j != Nsamples` tested first), every `samples[i]`, `samples[j]` of the update loop — where `j`
+advances circularly (`++j; if (j == Nsamples) j = 0`) — is inside the vector; each `while (j != i && …)` ends within `Nsamples`
+rounds (the circular distance from `j` to `i` decreases), so the function returns; after a non-early return `j < Nsamples`.
+The sampling loops always collect exactly 109 samples (`r*r + c*c < 36`, `-6 ≤ r, c ≤ 6`). -/
+theorem C10_surf_dominant_angle_in_bounds (ns : Nat) (btw : Nat → Nat → Bool) (hns : 1 ≤ ns) :
+    allOk (angleRun ns btw).1 = true ∧ (angleRun ns btw).2.2.2 = true ∧
+      ((angleRun ns btw).2.1 = false → (angleRun ns btw).2.2.1 < ns) ∧ angleSampleCount = 109 := by
+  obtain ⟨h1, h2, h3⟩ := angleRun_ok ns btw hns
+  exact ⟨h1, h2, h3, by decide⟩
+
+/-- non-vacuity: 4 samples, every pair "between": the first loop takes everything (early return); nothing between: the update loop
+runs with `j` parked; all but one: `j` wraps around; an empty sample vector (impossible: 109) would make `samples[0]` leave it -/
+example : (angleRun 4 (fun _ _ => true)).2.1 = true ∧ (angleRun 4 (fun _ _ => false)).2 = (false, 1, true) ∧
+    (angleRun 4 (fun i j => !(i == 0 && j == 3))).2 = (false, 3, true) ∧ allOk (angleRun 0 (fun _ _ => false)).1 = false := by decide
+
+end Round4Feat
+-- ---------------------------------------------------------------------------------------------------------
+
+
+/-! ## Round 4 — Conv: `_convolve.cpp` (convolve, rank_filter, mean_filter, template_match, daubechies coefficient tables)  -/
+section Round4Conv
+open Mahotas.C10Conv
+-- (theorems of this package go between this line and the `end`)
+
+/-- **C10, `_convolve.cpp: rank_filter` — the scratch vector `n_data` (`resize(N2)`).** For every footprint size `N2`, every
+`rank` with `0 ≤ rank < N2` (what `_check_rank` guarantees: `C11_rank_guards_imply_pre`; outside that range the kernel returns before
+any access), every border mode and EVERY outcome of the `N2` `retrieve` calls of a pixel: each store `neighbours[n++]` and the read
+`neighbours[currank]` is inside the `N2` cells; the final count satisfies `0 ≤ n ≤ N2` (`= N2` in constant mode);
+`0 ≤ currank ≤ n`, so `std::nth_element(neighbours, neighbours + currank, neighbours + n)` gets a valid range; and whenever at
+least one neighbour was retrieved `currank < n`: the value written to the result was stored for THIS pixel. (Only for `n = 0` —
+`ignore` mode with a footprint that misses the image entirely — `neighbours[0]` is a value-initialised or stale cell of the
+vector: defined memory, see `C08_rank_filter_ignore_stale_witness`.) -/
+theorem C10_rank_filter_in_bounds (n2 rank : Int) (isConst : Bool) (retr : List Bool) (hlen : (retr.length : Int) = n2)
+    (hr0 : 0 ≤ rank) (hr : rank < n2) :
+    allOk (rankPixelAccesses n2 rank isConst retr) = true ∧
+    0 ≤ (rankStores isConst retr 0).2 ∧ (rankStores isConst retr 0).2 ≤ n2 ∧
+    (isConst = true → (rankStores isConst retr 0).2 = n2) ∧
+    0 ≤ curRank n2 (rankStores isConst retr 0).2 rank ∧
+    curRank n2 (rankStores isConst retr 0).2 rank ≤ (rankStores isConst retr 0).2 ∧
+    (0 < (rankStores isConst retr 0).2 → curRank n2 (rankStores isConst retr 0).2 rank < (rankStores isConst retr 0).2) := by
+  obtain ⟨h1, h2, h3, h4⟩ := rankStores_spec isConst retr 0
+  have hn : (rankStores isConst retr 0).2 ≤ n2 := by omega
+  obtain ⟨c1, c2, c3, c4⟩ := curRank_spec n2 _ rank hr0 hr h1 hn
+  refine ⟨?_, h1, hn, fun hc => by have := h4 hc; omega, c1, c2, c4⟩
+  rw [Mahotas.C10Conv.allOk_iff]
+  intro a ha
+  simp only [rankPixelAccesses] at ha
+  rw [if_neg (by omega)] at ha
+  simp only [List.mem_append, List.mem_map, List.mem_singleton] at ha
+  rcases ha with ⟨i, hi, rfl⟩ | rfl
+  · have := h3 i hi; simp only; omega
+  · exact ⟨c1, c3⟩
+
+/-- non-vacuity: a 5-cell footprint, `ignore` mode, two neighbours outside the image, rank 2 (the median): three stores at 0, 1, 2,
+`currank = 3*2/5 = 1`; with `rank = 5` nothing is accessed; over a vector of 2 cells the third store would be outside -/
+example : rankPixelAccesses 5 2 false [true, false, true, true, false] = [⟨0, 5⟩, ⟨1, 5⟩, ⟨2, 5⟩, ⟨1, 5⟩] ∧
+    rankPixelAccesses 5 5 false [true, false, true, true, false] = [] ∧
+    allOk ((rankStores false [true, true, true] 0).1.map (fun i => CAcc.mk i 2)) = false := by decide
+
+
+/-- **C10, `py_daubechies` / `py_idaubechies`: the coefficient table selected by `dcoeffs(code)`.** For EVERY `int code`: the entry point
+goes on exactly for `0 ≤ code ≤ 9` (otherwise `dcoeffs` sets an error and the entry point returns), and then every
+`coeffs[j]`, `j < ncoeffs = 2*(code+1)`, of `wavelet` / `iwavelet` is inside the table the `switch` selected — the ten tables as
+extracted from the current source have exactly `2*(code+1)` entries (so `nc` of `C10_wavelet_in_bounds` is the table length). -/
+theorem C10_daubechies_tables_in_bounds (code : Int) :
+    (daubCoeffReads code = none ↔ code < 0 ∨ 9 < code) ∧ ∀ l, daubCoeffReads code = some l → Mahotas.C10Conv.allOk l = true := by
+  have hlen : Mahotas.Generated.dcoeffs.length = 10 := by decide
+  have htab : ∀ c : Nat, c < 10 → (Mahotas.Generated.dcoeffs.getD c []).length = 2 * (c + 1) := by decide
+  have h10 : (Int.ofNat 10 : Int) = 10 := rfl
+  unfold daubCoeffReads
+  rw [hlen, h10]
+  constructor
+  · split <;> simp <;> omega
+  · intro l h
+    split at h
+    · rename_i hc
+      simp only [Option.some.injEq] at h
+      subst h
+      rw [Mahotas.C10Conv.allOk_iff]
+      intro a ha
+      simp only [List.mem_map, List.mem_range, Int.ofNat_eq_natCast] at ha
+      obtain ⟨j, hj, rfl⟩ := ha
+      have := htab code.toNat (by omega)
+      simp only
+      rw [this]
+      push_cast
+      omega
+    · simp at h
+
+example : (daubCoeffReads 1).map (fun l => l.map (·.i)) = some [0, 1, 2, 3] ∧ daubCoeffReads 10 = none ∧ daubCoeffReads (-1) = none := by
+  decide
+
+/-- **C10, `rank_filter`: the rank test in front of the loop is necessary.** Without `rank >= N2` rejected, `rank = N2` with every
+neighbour retrieved reads `neighbours[N2]`, one past the vector, for every footprint size. -/
+theorem C10_rank_filter_needs_rank_guard (n2 : Int) : (CAcc.mk (curRank n2 n2 n2) n2).ok = false := by
+  simp [curRank, CAcc.ok]
+
+end Round4Conv
+-- ---------------------------------------------------------------------------------------------------------
+
+
+/-! ## Round 4 — Alloc: result buffers: write sets of the kernels whose result is allocated uninitialised -/
+section Round4Alloc
+open Mahotas.C10Alloc
+-- (theorems of this package go between this line and the `end`)
+
+/-- **C10, uninitialised results — `std::fill` / `fill_n` / `PyArray_FILLWBYTE` / `a.fill(v)` / `a[...] = v`.** For every size `n`:
+every store is inside the buffer and EVERY cell `0 … n-1` is stored (so nothing of what the allocation left in the buffer survives). -/
+theorem C10_alloc_fill_defined (n : Nat) : within n (fillWrites n) = true ∧ covers n (fillWrites n) = true := by
+  rw [within_iff, covers_iff]
+  exact ⟨fun i hi => (mem_fillWrites n i).mp hi, fun i hi => (mem_fillWrites n i).mpr ⟨by omega, by omega⟩⟩
+
+example : fillWrites 3 = [0, 1, 2] ∧ covers 4 (fillWrites 3) = false := by decide
+
+/-- **C10, uninitialised results — the pixel loop** (`convolve`, `rank_filter`, `mean_filter`, `template_match`, `erode`,
+`zoom_shift`'s output iterator, `fast_hitmiss`, the footprint copy of `filter_iterator`, `hitmiss`'s cursor): a pointer that starts at
+cell 0, ONE unconditional store per iteration, advanced once per iteration, `N` iterations. For every `N`: all stores inside the
+buffer of `N` cells, and every cell stored. -/
+theorem C10_alloc_pixel_loop_defined (n : Nat) : within n (pixelWrites n) = true ∧ covers n (pixelWrites n) = true := by
+  rw [within_iff, covers_iff]
+  exact ⟨fun i hi => (mem_pixelWrites n i).mp hi, fun i hi => (mem_pixelWrites n i).mpr ⟨by omega, by omega⟩⟩
+
+example : pixelWrites 4 = [0, 1, 2, 3] := by decide
+/-- a pixel loop that skips the store in one iteration (a `continue` in front of `*rpos = …`) leaves a cell undefined -/
+example : covers 4 ((pixelWrites 4).erase 2) = false := by decide
+
+/-- **C10, uninitialised results — row/column loops over a C-contiguous 2-D result** (`convolve1d` fast path into `out` / the
+`np.empty` scratch `tmp`, `gaussian_filter`): for all `N0`, `N1` every `y*N1 + x` is inside the `N0*N1` cells and every cell is stored. -/
+theorem C10_alloc_rows_defined (n0 n1 : Nat) :
+    within (n0 * n1) (rowsWrites n0 n1) = true ∧ covers (n0 * n1) (rowsWrites n0 n1) = true := by
+  rw [within_iff, covers_iff]
+  exact ⟨grid_within n0 n1, grid_covers n0 n1⟩
+
+example : rowsWrites 2 3 = [0, 1, 2, 3, 4, 5] := by decide
+
+/-- **C10, `_convex.cpp: convexhull`.** The `(h, 2)` result of `PyArray_SimpleNew` is filled by `*oiter++ = y; *oiter++ = x` for
+`i < h`: for every hull size `h` (0 included: an empty result has no cell) all stores are inside the `2h` cells and every cell is stored. -/
+theorem C10_alloc_convexhull_output_defined (h : Nat) :
+    within (h * 2) (pairsWrites h) = true ∧ covers (h * 2) (pairsWrites h) = true := by
+  rw [within_iff, covers_iff]
+  refine ⟨fun i hi => ?_, fun i hi => ?_⟩
+  · have := (mem_pairsGo h 0 i).mp hi; push_cast; omega
+  · exact (mem_pairsGo h 0 i).mpr ⟨by omega, by omega⟩
+
+example : pairsWrites 2 = [0, 1, 2, 3] ∧ pairsWrites 0 = [] := by decide
+
+/-- **C10, `_surf.cpp`: the point arrays returned by `surf`, `descriptors`, `interest_points`.** `new_array<double>(n, k)` followed by
+`points[i].dump(arr.data(i))` for `i < n`, where `dump` stores `out[0 … k-1]`: for every `n`, `k` all stores are inside the `n*k` cells
+and every cell is stored. -/
+theorem C10_alloc_surf_records_defined (n k : Nat) :
+    within (n * k) (recordsWrites n k) = true ∧ covers (n * k) (recordsWrites n k) = true := by
+  rw [within_iff, covers_iff]
+  exact ⟨grid_within n k, grid_covers n k⟩
+
+example : recordsWrites 2 5 = [0, 1, 2, 3, 4, 5, 6, 7, 8, 9] := by decide
+
+/-- **C10, `_bbox.cpp: py_bbox` / `py_bbox_labeled`.** The `2*nd` cells (`bbox_labeled`: `osize = 2*nd*(n+1)` cells, `j < osize/2`)
+are stored by `extrema_v[2*j] = …; extrema_v[2*j+1] = 0` before the scan only reads-modifies them: for every `nd`, inside and complete. -/
+theorem C10_alloc_bbox_extrema_defined (nd : Nat) :
+    within (2 * nd) (bboxInitWrites nd) = true ∧ covers (2 * nd) (bboxInitWrites nd) = true := by
+  rw [within_iff, covers_iff]
+  refine ⟨fun i hi => ?_, fun i hi => ?_⟩
+  · obtain ⟨j, hj, h | h⟩ := (mem_bboxInit nd i).mp hi <;> (push_cast; omega)
+  · exact (mem_bboxInit nd i).mpr ⟨i / 2, by omega, by omega⟩
+
+example : bboxInitWrites 2 = [0, 1, 2, 3] := by decide
+/-- an odd `osize` would leave the last cell of the labeled output undefined (`labeled.py` allocates `f.ndim * 2 * (n+1)`: even) -/
+example : covers 5 (bboxInitWrites (5 / 2)) = false := by decide
+
+/-- **C10, `zernike.py: An = np.empty(…, complex128); An.real = …; An.imag = …`**: seen as `2n` doubles every cell is stored. -/
+theorem C10_alloc_complex_halves_defined (n : Nat) :
+    within (2 * n) (complexHalvesWrites n) = true ∧ covers (2 * n) (complexHalvesWrites n) = true := by
+  rw [within_iff, covers_iff]
+  refine ⟨fun i hi => ?_, fun i hi => ?_⟩
+  · obtain ⟨j, hj, h | h⟩ := (mem_complexHalves n i).mp hi <;> (push_cast; omega)
+  · exact (mem_complexHalves n i).mpr ⟨i / 2, by omega, by omega⟩
+
+example : complexHalvesWrites 2 = [0, 2, 1, 3] := by decide
+
+/-- **C10, `_filters.h: filter_iterator(…, compress = true)`.** `new_filter_data = new T[size_]` with `size_` = the number of non-zero
+filter cells (what `init_filter_offsets` counts from `footprint[i] = !!filter[i]`), stored by `if (*fiter) new_filter_data[j++] = *fiter`:
+for EVERY filter content the stores are inside the `size_` cells and every cell is stored (the kernels index `filter[j]`, `j < size_`). -/
+theorem C10_alloc_filter_compress_defined (mask : List Bool) :
+    within (compressSize mask) (compressWrites mask) = true ∧ covers (compressSize mask) (compressWrites mask) = true := by
+  rw [within_iff, covers_iff]
+  refine ⟨fun i hi => ?_, fun i hi => ?_⟩
+  · have := (mem_compressGo mask 0 i).mp hi; simp only [compressSize]; omega
+  · exact (mem_compressGo mask 0 i).mpr ⟨by omega, by simp only [compressSize] at hi; omega⟩
+
+example : compressWrites [true, false, true, true, false] = [0, 1, 2] ∧ compressSize [true, false, true, true, false] = 3 := by decide
+example : compressWrites [false, false] = [] ∧ compressSize [false, false] = 0 := by decide
+
+/-- **C10, `_zernike.cpp: py_znl`, the scratch `g_m = new double[int((n-l)/2) + 1]`.** For ALL ints `n`, `l` (C division truncating
+towards zero): every `g_m[m]` of the filling loop `m = 0 … (n-l)/2` is inside the allocation, every cell is stored, and every `g_m[m]`
+the element loop reads was stored. (For `n - l ≤ -2` the allocation size is `≤ 0` and both loops run zero times.) -/
+theorem C10_alloc_znl_gm_defined (n l : Int) :
+    within (gmSize n l).toNat (gmIndices n l) = true ∧ covers (gmSize n l).toNat (gmIndices n l) = true ∧
+      readsDefined (gmIndices n l) (gmIndices n l) = true := by
+  rw [within_iff, covers_iff, readsDefined_iff]
+  refine ⟨fun i hi => ?_, fun i hi => ?_, fun i hi => hi⟩
+  · have := (mem_gmIndices n l i).mp hi; omega
+  · exact (mem_gmIndices n l i).mpr ⟨by omega, by omega⟩
+
+example : gmIndices 8 2 = [0, 1, 2, 3] ∧ gmSize 8 2 = 4 ∧ gmIndices 3 7 = [] := by decide
+
+/-- **C10, `thin.py: imagebuf = np.empty((r+2, c+2), bool)`** (scratch of `_thin.thin`): in every round `fast_hitmiss` stores
+`*output++` once per input byte, BEFORE the clearing loop reads `*pb` for `j < N`: all stores/reads inside, every cell stored,
+every cell read was stored in the same round. -/
+theorem C10_alloc_thin_buffer_defined (n : Nat) :
+    within n (hitmissBufRound n).1 = true ∧ covers n (hitmissBufRound n).1 = true ∧
+      within n (hitmissBufRound n).2 = true ∧ readsDefined (hitmissBufRound n).1 (hitmissBufRound n).2 = true := by
+  refine ⟨(C10_alloc_pixel_loop_defined n).1, (C10_alloc_pixel_loop_defined n).2, (C10_alloc_pixel_loop_defined n).1, ?_⟩
+  rw [readsDefined_iff]; exact fun i hi => hi
+
+
+/-- **C10, `_distance.cpp: dist_transform` — the scratch arrays `v = new int[n]`, `z = new double[n+1]` of `py_dt` are never read before
+they are written.** With the two float tests as arbitrary oracles subject to the same two facts as `C10_dist_transform_in_bounds`
+((i) `s > z[0] = -inf` succeeds: no NaN; (ii) the sentinel `z[kfin+1] = +inf` is never `< q`): every `v[k]`, `z[k]` read by the
+do-while of the first loop and every `z[k+1]`, `v[k]` read by the second loop addresses a cell that an earlier statement of the SAME
+call has stored (`v[0]`, `z[0]`, `z[1]` at the start; `v[k]`, `z[k]`, `z[k+1]` after every `++k`; cells above the current `k` keep earlier
+stores of this call), for every line length and every outcome of the comparisons; and the do-while always leaves through `break`.
+(`Df[q]`, `ot[q]` are stored for every `q < n` by the second loop before the third loop reads them: the pixel-loop shape.) -/
+theorem C10_alloc_dt_scratch_defined (cmp lt2 : Nat → Nat → Bool) (n : Nat) (hcmp : ∀ q, cmp q 0 = true)
+    (hlt : ∀ q, lt2 q (dtKfin cmp n) = false) :
+    (dtScratchReads cmp lt2 n).1.all DRead.ok = true ∧ (dtScratchReads cmp lt2 n).2.isSome = true := by
+  obtain ⟨h1, h2⟩ := dtScratchReads_ok cmp lt2 n hcmp hlt
+  exact ⟨(dOk_iff _).mpr h1, h2⟩
+
+/-- non-vacuity: `n = 4`, never pop (`k` grows to 3), the second loop advances while `k < 3`: 17 reads, all of stored cells; a
+second loop that ignores the sentinel (`lt2` always true) reads `z[5]`, which nobody stored -/
+example : dtKfin (fun _ _ => true) 4 = 3 ∧ (dtScratchReads (fun _ _ => true) (fun _ k => decide (k < 3)) 4).1.length = 17 ∧
+    (dtScratchReads (fun _ _ => true) (fun _ k => decide (k < 3)) 4).1.all DRead.ok = true ∧
+    (dtScratchReads (fun _ _ => true) (fun _ _ => true) 4).1.all DRead.ok = false := by decide
+
+/-- **C10, `majority_filter` (and `find2d`): fill, then window stores.** `PyArray_FILLWBYTE(res_a, 0)` stores every cell; the
+stores of the window loops `output.data() + (y + N/2)*cols + N/2 + x` (`y < rows-N`, `x < cols-N`, taken only when `rows, cols ≥ N`)
+stay inside the `rows*cols` cells, for every size and every window `N` (even, zero and larger than the image included). -/
+theorem C10_alloc_window_defined (rows cols win : Nat) :
+    within (rows * cols) (windowWrites rows cols win) = true ∧ covers (rows * cols) (windowWrites rows cols win) = true := by
+  rw [within_iff, covers_iff]
+  refine ⟨fun i hi => ?_, fun i hi => ?_⟩
+  · simp only [windowWrites, List.mem_append] at hi
+    rcases hi with hi | hi
+    · exact (mem_fillWrites _ i).mp hi
+    · split at hi
+      · simp at hi
+      · rename_i hw
+        simp only [List.mem_flatMap, List.mem_map, List.mem_range, Int.ofNat_eq_natCast] at hi
+        obtain ⟨y, hy, x, hx, rfl⟩ := hi
+        have h1 : y + win / 2 < rows := by omega
+        have h2 : win / 2 + x < cols := by omega
+        have := grid_lt rows cols (y + win / 2) (win / 2 + x) h1 h2
+        push_cast at this ⊢
+        constructor
+        · positivity
+        · linarith
+  · simp only [windowWrites, List.mem_append]
+    exact Or.inl ((mem_fillWrites _ i).mpr ⟨by omega, by exact_mod_cast hi⟩)
+
+example : windowWrites 4 4 3 = (fillWrites 16) ++ [5] := by decide
+example : windowWrites 2 5 3 = fillWrites 10 := by decide
+
+/-- one row of the cover: an allocation site of uninitialised memory (`file`, enclosing `fn`, variable, ordinal), the loop shape that
+fills the buffer (`mech`, with the source text in `how`), the theorems of this file about that shape and about the kernel's index
+arithmetic, and whether "every cell stored before it is read/returned" is PROVED for the shape (`false`: validated only, by the
+two-heap-fillings sweep of `harness/props/c10.py`). -/
+structure AllocCover where
+  file : String
+  fn : String
+  var : String
+  ord : Nat
+  mech : String
+  how : String
+  thms : List Lean.Name
+  proved : Bool
+
+/-- the hand-written cover of `Generated.allocSiteTable` (regenerated from the sources on every run) -/
+def allocCover : List AllocCover := [
+  ⟨"_bbox.cpp", "py_bbox", "extrema", 0, "bboxinit", "for j != nd: extrema_v[2*j] = DIM(j); extrema_v[2*j+1] = 0 right after the allocation", [``C10_alloc_bbox_extrema_defined, ``C10_bbox_in_bounds], true⟩,
+  ⟨"_center_of_mass.cpp", "py_center_of_mass", "centers", 0, "fill", "std::fill(centers_v, centers_v + dims[0], 0) before the kernel", [``C10_alloc_fill_defined, ``C10_center_of_mass_in_bounds], true⟩,
+  ⟨"_center_of_mass.cpp", "py_center_of_mass", "totals", 0, "fill", "std::fill(totals, totals + max_label + 1, 0.0) right after new[]", [``C10_alloc_fill_defined], true⟩,
+  ⟨"_convex.cpp", "convexhull", "output", 0, "pairs", "for i != h: *oiter++ = P[i].y; *oiter++ = P[i].x into the (h,2) result", [``C10_alloc_convexhull_output_defined, ``C10_graham_in_bounds], true⟩,
+  ⟨"_convolve.cpp", "py_convolve", "output", 0, "pixel", "convolve<T>: one store *rpos per iteration of the pixel loop", [``C10_alloc_pixel_loop_defined], true⟩,
+  ⟨"_distance.cpp", "py_dt", "z", 0, "dtscratch", "dist_transform stores z[0], z[1] first and z[k], z[k+1] after every ++k; every z[k] / z[k+1] read is at or below the watermark", [``C10_alloc_dt_scratch_defined, ``C10_dist_transform_in_bounds], true⟩,
+  ⟨"_distance.cpp", "py_dt", "v", 0, "dtscratch", "dist_transform stores v[0] first and v[k] after every ++k; every v[k] read is below the watermark", [``C10_alloc_dt_scratch_defined, ``C10_dist_transform_in_bounds], true⟩,
+  ⟨"_distance.cpp", "py_dt", "ot", 0, "pixel", "second loop: ot[q] = … for every q < n (one store per iteration), third loop reads ot[q] for q < n", [``C10_alloc_pixel_loop_defined, ``C10_alloc_thin_buffer_defined, ``C10_dist_transform_in_bounds], true⟩,
+  ⟨"_distance.cpp", "py_dt", "Df", 0, "pixel", "second loop: Df[q] = … for every q < n (one store per iteration), third loop reads Df[q] for q < n", [``C10_alloc_pixel_loop_defined, ``C10_alloc_thin_buffer_defined, ``C10_dist_transform_in_bounds], true⟩,
+  ⟨"_morph.cpp", "py_close_holes", "res_a", 0, "fill", "close_holes starts with std::fill_n(f.data(), f.size(), false)", [``C10_alloc_fill_defined], true⟩,
+  ⟨"_surf.cpp", "build_pyramid", "pyramid", 0, "fill", "PyArray_FILLWBYTE(pyramid[o].raw_array(), 0) right after new_array", [``C10_alloc_fill_defined, ``C10_surf_pyramid_in_bounds], true⟩,
+  ⟨"_surf.cpp", "py_surf", "arr", 0, "records", "for i: spoints[i].dump(arr.data(i)) stores all ndoubles cells of row i", [``C10_alloc_surf_records_defined], true⟩,
+  ⟨"_surf.cpp", "py_descriptors", "arr", 0, "records", "for i: spoints[i].dump(arr.data(i))", [``C10_alloc_surf_records_defined], true⟩,
+  ⟨"_surf.cpp", "py_interest_points", "arr", 0, "records", "for i: interest_points[i].dump(arr.data(i))", [``C10_alloc_surf_records_defined], true⟩,
+  ⟨"_zernike.cpp", "py_znl", "g_m", 0, "gm", "for m <= (n-l)/2: g_m[m] = … before the element loop reads g_m[m] over the same range", [``C10_alloc_znl_gm_defined], true⟩,
+  ⟨"_filters.h", "filter_iterator", "footprint", 0, "pixel", "for i != filter_size: footprint[i] = !!(*fiter)", [``C10_alloc_pixel_loop_defined], true⟩,
+  ⟨"_filters.h", "filter_iterator", "new_filter_data", 0, "compress", "j = 0; for i: if (*fiter) new_filter_data[j++] = *fiter into new T[size_]", [``C10_alloc_filter_compress_defined], true⟩,
+  ⟨"array.hpp", "new_array", "?", 0, "helper", "numpy::new_array: the allocation helper itself; its call sites are the four _surf.cpp rows", [``C10_alloc_surf_records_defined, ``C10_alloc_fill_defined], true⟩,
+  ⟨"array.hpp", "array_like", "return", 0, "helper", "numpy::array_like: allocation helper without a call site in the current sources", [], true⟩,
+  ⟨"convolve.py", "convolve", "output", 0, "pixel", "_convolve.convolve pixel loop", [``C10_alloc_pixel_loop_defined], true⟩,
+  ⟨"convolve.py", "convolve1d", "out", 0, "rows", "native fast path: result.data(y)[x] for every row and column (C06 fastwrites); other axes: generic convolve pixel loop", [``C10_alloc_rows_defined, ``C10_alloc_pixel_loop_defined, ``C10_convolve1d_in_bounds], true⟩,
+  ⟨"convolve.py", "convolve1d", "tmp", 0, "rows", "native fast path writes every column of every row of tmp before out[...] = tmp…", [``C10_alloc_rows_defined, ``C10_convolve1d_in_bounds], true⟩,
+  ⟨"convolve.py", "median_filter", "output", 0, "pixel", "rank_filter pixel loop (rank in range by _check_rank: C11_rank_guards_imply_pre)", [``C10_alloc_pixel_loop_defined, ``C10_rank_filter_in_bounds], true⟩,
+  ⟨"convolve.py", "mean_filter", "out", 0, "pixel", "mean_filter pixel loop", [``C10_alloc_pixel_loop_defined], true⟩,
+  ⟨"convolve.py", "rank_filter", "output", 0, "pixel", "rank_filter pixel loop (rank in range by _check_rank: C11_rank_guards_imply_pre)", [``C10_alloc_pixel_loop_defined, ``C10_rank_filter_in_bounds], true⟩,
+  ⟨"convolve.py", "template_match", "output", 0, "pixel", "template_match pixel loop", [``C10_alloc_pixel_loop_defined], true⟩,
+  ⟨"convolve.py", "find", "out", 0, "window", "find2d: std::fill(rpos, rpos + N0*N1, false) before the window loops", [``C10_alloc_fill_defined, ``C10_find2d_in_bounds], true⟩,
+  ⟨"convolve.py", "gaussian_filter", "output", 0, "rows", "filled by convolve1d (fast path rows / generic pixel loop) per axis", [``C10_alloc_rows_defined, ``C10_alloc_pixel_loop_defined], true⟩,
+  ⟨"features/texture.py", "haralick", "cmat", 0, "fill", "cooccurence(f, dir, cmat, …) executes output.fill(0) before the kernel", [``C10_alloc_fill_defined, ``C10_cooccurence_in_bounds], true⟩,
+  ⟨"features/texture.py", "haralick_features", "px_plus_y", 0, "fill", "px_plus_y.fill(0) before _texture.compute_plus_minus (which only adds)", [``C10_alloc_fill_defined, ``C10_compute_plus_minus_in_bounds], true⟩,
+  ⟨"features/texture.py", "haralick_features", "px_minus_y", 0, "fill", "px_minus_y.fill(0) before _texture.compute_plus_minus", [``C10_alloc_fill_defined, ``C10_compute_plus_minus_in_bounds], true⟩,
+  ⟨"features/zernike.py", "zernike_moments", "An", 0, "complexhalves", "An.real = Xn/Dn; An.imag = Yn/Dn", [``C10_alloc_complex_halves_defined], true⟩,
+  ⟨"internal.py", "_get_output", "return", 0, "helper", "np.empty(array.shape, dtype) of _get_output: handed to the callers listed as get_output rows", [], true⟩,
+  ⟨"interpolate.py", "spline_filter1d", "output", 0, "fill", "output[...] = array before the in-place kernel", [``C10_alloc_fill_defined, ``C10_spline_filter1d_in_bounds], true⟩,
+  ⟨"interpolate.py", "spline_filter", "output", 0, "fill", "output[...] = array before the in-place kernel", [``C10_alloc_fill_defined, ``C10_spline_filter1d_in_bounds], true⟩,
+  ⟨"interpolate.py", "zoom", "out", 0, "pixel", "zoom_shift: *io = cval or *io = t for every element of the output iterator", [``C10_alloc_pixel_loop_defined, ``C10_zoom_shift_in_bounds], true⟩,
+  ⟨"interpolate.py", "zoom", "out", 1, "pixel", "zoom_shift: *io = cval or *io = t for every element of the output iterator", [``C10_alloc_pixel_loop_defined, ``C10_zoom_shift_in_bounds], true⟩,
+  ⟨"interpolate.py", "shift", "output", 0, "pixel", "zoom_shift output iterator loop", [``C10_alloc_pixel_loop_defined, ``C10_zoom_shift_in_bounds], true⟩,
+  ⟨"labeled.py", "label", "output", 0, "fill", "output[:] = (array != 0) before _labeled.label", [``C10_alloc_fill_defined], true⟩,
+  ⟨"labeled.py", "border", "output", 0, "fill", "output.fill(False) before _labeled.border", [``C10_alloc_fill_defined], true⟩,
+  ⟨"labeled.py", "borders", "output", 0, "fill", "output.fill(False) before _labeled.borders", [``C10_alloc_fill_defined], true⟩,
+  ⟨"labeled.py", "labeled_sum", "output", 0, "fill", "labeled_foldl: std::fill(result, result + maxlabel, start)", [``C10_alloc_fill_defined, ``C10_labeled_foldl_in_bounds], true⟩,
+  ⟨"labeled.py", "labeled_max", "output", 0, "fill", "labeled_foldl: std::fill(result, result + maxlabel, start)", [``C10_alloc_fill_defined, ``C10_labeled_foldl_in_bounds], true⟩,
+  ⟨"labeled.py", "labeled_min", "output", 0, "fill", "labeled_foldl: std::fill(result, result + maxlabel, start)", [``C10_alloc_fill_defined, ``C10_labeled_foldl_in_bounds], true⟩,
+  ⟨"labeled.py", "bbox", "output", 0, "bboxinit", "py_bbox_labeled: for j < osize/2: extrema_v[2*j] = …; extrema_v[2*j+1] = 0 (osize = 2*nd*(n+1) is even)", [``C10_alloc_bbox_extrema_defined, ``C10_bbox_labeled_in_bounds], true⟩,
+  ⟨"morph.py", "dilate", "output", 0, "fill", "dilate<T>: std::fill / std::copy of the whole result before the scatter loop (C08_defined_everywhere_dilate, C08_defined_everywhere_fast_binary)", [``C10_alloc_fill_defined, ``C10_fastbinary_in_bounds], true⟩,
+  ⟨"morph.py", "erode", "output", 0, "pixel", "erode<T>: pixel loop; fast binary path: std::copy / std::fill_n first (C08_defined_everywhere_erode, C08_defined_everywhere_fast_binary)", [``C10_alloc_pixel_loop_defined, ``C10_alloc_fill_defined, ``C10_fastbinary_in_bounds], true⟩,
+  ⟨"morph.py", "cerode", "out", 0, "pixel", "_morph.erode(f, Bc, out)", [``C10_alloc_pixel_loop_defined, ``C10_alloc_fill_defined], true⟩,
+  ⟨"morph.py", "hitmiss", "out", 0, "pixel", "hitmiss<T>: every store is res.at_flat(i) at the loop cursor i, which then advances by one (margin run: at_flat(i++) = 0), return only when i == N", [``C10_alloc_pixel_loop_defined, ``C10_hitmiss_in_bounds], true⟩,
+  ⟨"morph.py", "majority_filter", "output", 0, "window", "PyArray_FILLWBYTE(res_a, 0) before the window loops", [``C10_alloc_window_defined, ``C10_majority_in_bounds], true⟩,
+  ⟨"morph.py", "locmax", "output", 0, "fill", "PyArray_FILLWBYTE(output, 0) in py_locminmax", [``C10_alloc_fill_defined], true⟩,
+  ⟨"morph.py", "locmin", "output", 0, "fill", "PyArray_FILLWBYTE(output, 0) in py_locminmax", [``C10_alloc_fill_defined], true⟩,
+  ⟨"morph.py", "regmin", "output", 0, "fill", "PyArray_FILLWBYTE(output, 0) in py_regminmax", [``C10_alloc_fill_defined], true⟩,
+  ⟨"morph.py", "regmax", "output", 0, "fill", "PyArray_FILLWBYTE(output, 0) in py_regminmax", [``C10_alloc_fill_defined], true⟩,
+  ⟨"morph.py", "subm", "out", 0, "fill", "out[:] = a before _morph.subm (in place)", [``C10_alloc_fill_defined], true⟩,
+  ⟨"morph.py", "tophat_close", "out", 0, "fill", "handed to subm(fc, f, out=out): out[:] = a", [``C10_alloc_fill_defined], true⟩,
+  ⟨"morph.py", "tophat_open", "out", 0, "fill", "handed to subm(f, fo, out=out): out[:] = a", [``C10_alloc_fill_defined], true⟩,
+  ⟨"resize.py", "resize_to", "out", 0, "pixel", "handed to zoom(out=out): zoom_shift output iterator loop", [``C10_alloc_pixel_loop_defined, ``C10_zoom_shift_in_bounds], true⟩,
+  ⟨"resize.py", "imresize", "out", 0, "pixel", "handed to zoom(out=out): zoom_shift output iterator loop", [``C10_alloc_pixel_loop_defined, ``C10_zoom_shift_in_bounds], true⟩,
+  ⟨"thin.py", "thin", "imagebuf", 0, "hitmissbuf", "scratch: fast_hitmiss stores every cell (*output++ per input byte) before the clearing loop reads it, in every round", [``C10_alloc_thin_buffer_defined, ``C10_thin_in_bounds], true⟩
+]
+
+/-- **C10, uninitialised results: every allocation site is classified.** `translator/allocs.py` lists every allocation of
+uninitialised memory in the current sources (`PyArray_SimpleNew`, `PyArray_EMPTY`, `new_array`, `new T[n]`, `operator new`,
+`np.empty`, `np.empty_like`, `np.ndarray(shape)`, and every call of `_get_output`): each of them has a row in `allocCover` naming the
+loop shape that fills it and the theorems about that shape. A NEW result buffer that nobody has looked at makes this `decide` fail. -/
+theorem C10_alloc_sites_covered :
+    Mahotas.Generated.allocSiteTable.all (fun s =>
+      allocCover.any fun c => c.file == s.1 && c.fn == s.2.1 && c.var == s.2.2.1 && c.ord == s.2.2.2.2) = true := by
+  decide +kernel
+
+/-- **C10, uninitialised results: nothing is left validated-only.** Every row of the cover is marked proved and (unless it is one
+of the three allocation helpers, whose call sites have rows of their own) cites at least one theorem about the loop shape that fills
+the buffer. (Until round 4 the scratch arrays `z`, `v`, `ot`, `Df` of `py_dt` were validated only; see `C10_alloc_dt_scratch_defined`.) -/
+theorem C10_alloc_validated_only :
+    (allocCover.filter fun c => !c.proved).map (fun c => (c.file, c.var)) = [] ∧
+    allocCover.all (fun c => c.proved → (c.mech == "helper" || !c.thms.isEmpty)) = true := by
+  decide +kernel
+
+-- every theorem the cover cites exists (a renamed or deleted theorem breaks the build)
+open Lean in
+#eval show CoreM Unit from do
+  let env ← getEnv
+  for c in allocCover do
+    for n in c.thms do
+      unless env.contains n do throwError "allocCover: {c.file}:{c.fn}:{c.var} cites the unknown theorem {n}"
+
+end Round4Alloc
+-- ---------------------------------------------------------------------------------------------------------
